@@ -102,9 +102,34 @@ def write_if_changed(path: Path, content: str) -> bool:
     return True
 
 
+def prune_stale_build_outputs():
+    """remove compiled files of modules whose source no longer exists (generated modules -- certificates, per-obligation modules -- come
+    and go with the code under check; `leanchecker <prefix>` scans the build directory and would replay a left-over .olean of an earlier
+    generation against today's dependencies).  Call with the build lock held."""
+    removed = 0
+    for sub in ("lib/lean", "ir"):
+        root = LEAN / ".lake" / "build" / sub
+        if not root.is_dir():
+            continue
+        for f in root.rglob("*"):
+            if not f.is_file():
+                continue
+            rel = f.relative_to(root)
+            stem = rel.name.split(".")[0]
+            src = LEAN / rel.parent / (stem + ".lean")
+            if rel.parts[0] in ("ScrapliModel", "ScrapliProps", "Drv", "Audit") and not src.exists():
+                try:
+                    f.unlink()
+                    removed += 1
+                except OSError:
+                    pass
+    return removed
+
+
 def lake_build(targets, timeout=3000):
     """returns (ok, output)"""
     with BuildLock():
+        prune_stale_build_outputs()
         p = subprocess.run(["lake", "build", *targets], cwd=LEAN, capture_output=True, text=True, timeout=timeout)
     return p.returncode == 0, (p.stdout + p.stderr)
 
@@ -276,7 +301,10 @@ class Check:
         return okc == len(res) and okc > 0
 
     def leanchecker(self, module):
-        p = subprocess.run(["lake", "env", "leanchecker", module], cwd=LEAN, capture_output=True, text=True, timeout=3000)
+        with BuildLock():
+            # no build (and no regeneration of a module by another run) while the compiled files are re-checked
+            prune_stale_build_outputs()
+            p = subprocess.run(["lake", "env", "leanchecker", module], cwd=LEAN, capture_output=True, text=True, timeout=3000)
         self.extra["leanchecker"] = {"module": module, "rc": p.returncode}
         if p.returncode != 0:
             self.proof_broken(f"leanchecker {module}", (p.stdout + p.stderr)[-2000:])
